@@ -176,6 +176,8 @@ class MediaQuery(cssutils.util._NewBase):  # cssutils.util.Base):
             self._log.error('MediaQuery: Unexpected token.', savedTokens.pop())
         self._wellformed = ok
         if ok:
+            # nothing is left of a text set before
+            self._mediaType = ''
             try:
                 media_type = store['media_type']
             except KeyError:
